@@ -11,7 +11,7 @@ use crate::history::{World, random_opts};
 use crate::icept::{Icept, Mode, V};
 use crate::report::{Run, Tier};
 use crate::rng::{Rng, fnv};
-use crate::tree::GenParams;
+use crate::tree::{self, GenParams};
 
 /// Directory bytes with the timestamps of heads and tails removed.
 fn normalised(root: &Path) -> BTreeMap<String, FsItem> {
@@ -246,21 +246,66 @@ fn many_hunks(run: &Run) {
     run.count("many_hunks_replays_compared", 1);
 }
 
+/// The wall clock is not an input either: a file stamped slightly in the future is backed up
+/// twice before the clock passes its mtime, and twice after, into two archives.
+fn clock_straddle(run: &Run) {
+    let sc = crate::scratch::Scratch::new("c17clock");
+    let src = sc.join("src");
+    let mut spec = tree::Snapshot::new();
+    spec.insert("/".into(), tree::Node::dir());
+    let now = std::time::SystemTime::now().duration_since(std::time::UNIX_EPOCH).unwrap().as_secs() as i64;
+    for (name, dt) in [("/a", -1000i64), ("/b", 2), ("/c", -500), ("/d", 86_400)] {
+        let mut n = tree::Node::file(format!("content of {name}").into_bytes());
+        n.mtime_s = now + dt;
+        n.mtime_ns = 250_000_000;
+        spec.insert(name.into(), n);
+    }
+    tree::sync_to_disk(None, &spec, &src).expect("materialise");
+    let o = cs::Opts { hunk: 100_000, block: 1000, cap: 64 };
+    let replay_into = |arch: &std::path::Path, workers: usize| {
+        cs::create_archive(arch);
+        for _ in 0..2 {
+            let _ = cs::with_workers(workers, || cs::backup(cs::local(arch), &src, o, &[], None));
+        }
+    };
+    run.eval();
+    let (a, b) = (sc.join("early"), sc.join("late"));
+    replay_into(&a, 0);
+    // until the clock has passed /b's mtime
+    while (std::time::SystemTime::now().duration_since(std::time::UNIX_EPOCH).unwrap().as_millis() as i64) < (now + 3) * 1000 {
+        std::thread::sleep(std::time::Duration::from_millis(100));
+    }
+    replay_into(&b, 4);
+    run.count("archive_pairs_compared", 1);
+    run.count("replays_straddling_a_file_mtime", 1);
+    if let Some(d) = first_difference(&normalised(&a), &normalised(&b)) {
+        run.violation(
+            "replay-differs:wall-clock",
+            format!("backup; backup of an untouched tree with a file stamped 2 s ahead, replayed before and after the clock passed that mtime: {d}"),
+            json!({"clock_straddle": true}),
+        );
+    }
+}
+
 pub fn run(tier: Tier, replay: Option<Value>) -> i32 {
     let run = Run::new("C17", "exploration", tier, replay.clone());
     if replay.as_ref().and_then(|r| r.get("many_hunks")).is_some() {
         many_hunks(&run);
         return run.finish("replay", &[], None, &[]);
     }
+    if replay.as_ref().and_then(|r| r.get("clock_straddle")).is_some() {
+        clock_straddle(&run);
+        return run.finish("replay", &[], None, &[]);
+    }
     if replay.is_none() {
-        super::alongside(&run, "the many-hunks replay", || many_hunks(&run), || run.par_cases(tier.pick(100, 4000), super::threads().min(8), |c| one_history(&run, c)));
+        super::alongside(&run, "the many-hunks and wall-clock replays", || { many_hunks(&run); clock_straddle(&run); }, || run.par_cases(tier.pick(100, 4000), super::threads().min(8), |c| one_history(&run, c)));
     } else {
         run.par_cases(tier.pick(100, 4000), super::threads().min(8), |c| one_history(&run, c));
     }
     run.finish(
-        "histories over {tree mutations, backup(random options), backup killed before its n-th write, delete of a random subset (sometimes with the removal of one particular garbage block failing, a fault addressed by path), gc} are executed in lock-step from the same on-disk source states into a first archive (current-thread tokio runtime) and into one (thorough: two) replica archives on multi-thread runtimes with 2 or 8 workers and random yields/sleeps before every storage operation; after every step the complete directory trees must be byte-identical, BANDHEAD/BANDTAIL compared as JSON without start_time/end_time. Within one process every HashMap instance already gets its own random seed, so hash-order dependence shows up without a second process. One history (backup, change, backup, gc) on a 10 040-file tree with one entry per hunk is replayed the same way. Distinct = history text with >= 3 archive operations.",
+        "histories over {tree mutations, backup(random options), backup killed before its n-th write, delete of a random subset (sometimes with the removal of one particular garbage block failing, a fault addressed by path), gc} are executed in lock-step from the same on-disk source states into a first archive (current-thread tokio runtime) and into one (thorough: two) replica archives on multi-thread runtimes with 2 or 8 workers and random yields/sleeps before every storage operation; after every step the complete directory trees must be byte-identical, BANDHEAD/BANDTAIL compared as JSON without start_time/end_time. Within one process every HashMap instance already gets its own random seed, so hash-order dependence shows up without a second process. One history (backup, change, backup, gc) on a 10 040-file tree with one entry per hunk is replayed the same way. One tree with a file stamped 2 s ahead of the clock is backed up twice before and twice after the clock passes that mtime (the wall clock is not an input). Distinct = history text with >= 3 archive operations.",
         &["timestamps in heads and tails are the only allowed difference", "a separate-process replay was not added (per-instance hash seeds make it redundant)"],
         None,
-        &[("archive_pairs_compared", 100), ("killed_backups_replayed", 3), ("histories_completed", 10), ("many_hunks_replays_compared", 1)],
+        &[("archive_pairs_compared", 100), ("killed_backups_replayed", 3), ("histories_completed", 10), ("many_hunks_replays_compared", 1), ("replays_straddling_a_file_mtime", 1)],
     )
 }
